@@ -32,7 +32,9 @@ SEEDS = ("rand::", "std::time::", "std::process::id", "std::env::var", "std::env
 
 def scope(crate):
     roots = []
-    for n in ("main", "report::generation::generate_report") + dirwalk.SIBLINGS:
+    # what the report is made from: the three walks (their results are handed to generate_report by main: R14.applied / R18.once) and the report writer with everything
+    # it calls. main's own body and helpers that only feed the terminal (progress lines, a listing on stdout) are not on the way to the report file
+    for n in ("report::generation::generate_report",) + dirwalk.SIBLINGS:
         b = crate.bodies.get(n)
         if b is not None:
             roots.append(b)
@@ -68,6 +70,35 @@ def collect_site(body, t, crate):
     return None
 
 
+def _worklist_source(b, it):
+    """order class of the loop that fills the work list `it` iterates over, if that loop is unordered"""
+    L = it
+    while L[0] in ("iter", "enumerate"):
+        L = L[1]
+    sp = S.single_push_lists(b)
+    if L not in sp:
+        return None
+    pbb = sp[L][0]
+    for lp2 in O.loops_of_body(b):
+        if pbb in lp2.blocks and lp2.order == "hash":
+            return "listing-ordered" if "ReadDir" in lp2.self_ty else "hash-ordered"
+    return None
+
+
+def _root(t):
+    while t[0] == "proj":
+        t = t[1]
+    return t
+
+
+def _projs(t):
+    out = []
+    while t[0] == "proj":
+        out.append(t[2])
+        t = t[1]
+    return out
+
+
 def sort_key_total(crate, sort_site):
     """sort / sort_unstable use Ord; sort_by_key must key on the pattern's discriminant (injective on patterns)"""
     name = sort_site.path.rsplit("::", 1)[-1]
@@ -80,12 +111,42 @@ def sort_key_total(crate, sort_site):
             if cb is not None:
                 rv = cb.val_local(0)
                 # key = (elem.0 as usize) : cast of the discriminant of field 0 of the element
-                if rv[0] == "cast" and rv[1][0] == "discr":
-                    inner = rv[1][1]
-                    fo = T.field_of(inner)
-                    if fo and fo[1] == 0 and fo[0] == ("param", 2):
-                        return True, "discriminant of the pattern"
+                def is_pattern_discr(x):
+                    if x[0] == "cast" and x[1][0] == "discr":
+                        fo = T.field_of(x[1][1])
+                        return bool(fo and fo[1] == 0 and fo[0] == ("param", 2))
+                    return False
+                if is_pattern_discr(rv):
+                    return True, "discriminant of the pattern"
+                if rv[0] == "agg" and rv[1] == "tuple" and any(is_pattern_discr(x) for x in rv[3]):
+                    # lexicographic key with a component that is different for any two patterns: no ties, so the (stable) sort leaves nothing to the input order
+                    return True, "tuple key containing the discriminant of the pattern"
                 return False, "key = %s" % show(rv)
+    if name in ("sort_by", "sort_unstable_by") and len(sort_site.args) == 2:
+        c = sort_site.args[1]
+        if c[0] == "agg" and c[1] == "closure":
+            cb = crate.bodies.get(c[2])
+            if cb is not None:
+                rv = cb.val_local(0)
+                # `primary.cmp(..).then_with(|| a.cmp(b))` (any number of then / then_with steps): equal only for equal elements when the last step compares the
+                # elements themselves by Ord
+                steps = 0
+                last = rv
+                while last[0] == "call" and last[1].rsplit("::", 1)[-1] in ("then_with", "then") and len(last[2]) == 2 and steps < 6:
+                    nxt = last[2][1]
+                    if nxt[0] == "agg" and nxt[1] == "closure":
+                        nb = crate.bodies.get(nxt[2])
+                        nxt = nb.val_local(0) if nb is not None else nxt
+                    last = nxt
+                    steps += 1
+                if last[0] == "call" and last[1] in ("std::cmp::Ord::cmp", "std::cmp::PartialOrd::partial_cmp") and len(last[2]) == 2:
+                    a_, b_ = last[2]
+                    whole = lambda t_: t_[0] == "param" or (t_[0] == "proj" and t_[2] == ("f", 0, None) and t_[1][0] == "param") or \
+                        (t_[0] == "proj" and t_[1][0] == "param" and t_[1][1] == 1)
+                    if a_ != b_ and last[1].endswith("Ord::cmp") and all(x[0] in ("param", "proj") for x in (a_, b_)) and \
+                            not any(isinstance(e, tuple) and e and e[0] == "f" for x in (a_, b_) for e in _projs(x) if x[0] == "proj" and _root(x)[0] == "param" and _root(x)[1] in (2, 3)):
+                        return True, "comparator ends in Ord::cmp of the two elements"
+                return False, "comparator = %s" % show(rv)[:120]
     return False, "unrecognised comparator"
 
 
@@ -107,6 +168,9 @@ def run(ctx, crate):
             src = None
             if lp.order == "hash":
                 src = "listing-ordered" if "ReadDir" in lp.self_ty else "hash-ordered"
+            elif lp.order == "ordered" and _worklist_source(b, it) is not None:
+                # a work list filled (by its single push) inside an unordered loop is in that loop's order: what is done for its elements is judged as if done there
+                src = _worklist_source(b, it)
             elif lp.order == "ordered":
                 cs = collect_site(b, it, crate)
                 need = None
@@ -152,6 +216,9 @@ def run(ctx, crate):
                 cb = O.creation_block(b, root)
                 if cb is not None and cb in lp.blocks:
                     continue  # object local to one iteration
+                if root in S.single_push_lists(b) and s.path.endswith("::push"):
+                    obs.append(Ob("R13.sink", b.path, "work list filled in this loop's order (its consuming loop is judged in that order class)", True, site=s.where, found=show(root)[:60]))
+                    continue
                 if root[0] == "const":
                     continue
                 # distinct-key exemption: entry keyed by this loop's own key element
